@@ -95,7 +95,9 @@ def main():
     with open(os.path.join(V, 'spec', 'BigCases.tla'), 'w') as f:
         f.write('------------------------------ MODULE BigCases ------------------------------\n')
         f.write('(* GENERATED by tools/biggen.py - inputs only (long literals, wide containers, deep nesting, every byte value in\n   every syntactic position); expected behaviour is computed by TLC from the specification. *)\n')
-        for name, texts in (('BigParseTexts', parse_texts()), ('AllByteTexts', allbyte_texts()), ('BigMinifyTexts', minify_texts())):
+        big = parse_texts()
+        bigq = [t for t in big if len(t) <= 140]        # the quick subset: everything up to 140 bytes (63/64 byte literals, 128 byte strings, 17 members, depth 33)
+        for name, texts in (('BigParseTexts', big), ('BigParseTextsQ', bigq), ('AllByteTexts', allbyte_texts()), ('BigMinifyTexts', minify_texts())):
             f.write('%s == {\n%s }\n' % (name, ',\n'.join(' ' + tup(t) for t in texts)))
         f.write('=============================================================================\n')
     print('biggen: %d parse texts, %d all-byte texts, %d minify texts' % (len(parse_texts()), len(allbyte_texts()), len(minify_texts())))
